@@ -694,6 +694,13 @@ impl Vm {
         while !self.is_at_the_end() {
             self.debug();
 
+            #[cfg(feature = "verif-hooks")]
+            if crate::verif_hooks::step_budget_exhausted() {
+                return Err(Box::new(self.runtime_error(RuntimeErrorKind::UserError(
+                    crate::verif_hooks::STEP_BUDGET_MESSAGE.into(),
+                ))));
+            }
+
             let op = unsafe { std::mem::transmute::<u8, Op>(self.read_byte()) };
 
             match op {
